@@ -91,7 +91,8 @@ RefFor(A, w) == CHOOSE v \in A : \A u \in A : Dot(w, u) <= Dot(w, v)
 Weights(n, ds, k) == [r \in 1..n |-> ((ds[k + r] % 7) - 3)]
 
 NoCall == [k |-> "none", ko |-> <<>>, ref |-> <<>>, refgiven |-> FALSE, refobj |-> 0, num |-> 1, den |-> 1,
-           delta |-> 0, eps |-> 0, useobj |-> FALSE, objc |-> <<>>, sub |-> <<>>]
+           delta |-> 0, eps |-> 0, useobj |-> FALSE, objc |-> <<>>, sub |-> <<>>,
+           hist |-> "none"]
 Call(M, k, K) == [NoCall EXCEPT !.k = k, !.ko = Mask(M, K), !.ref = ZeroVec(M), !.objc = M.c,
                                 !.sub = [r \in RIdx(M) |-> 1]]
 
@@ -106,7 +107,12 @@ PfbaCalls(M, K, F, ds, few) ==
       ovr == [Call(M, "pfba", K) EXCEPT !.useobj = TRUE, !.objc = oc, !.num = 1, !.den = 1 + (ds[3] % 2)]
       \* reactions= subset
       sub == [Call(M, "pfba", K) EXCEPT !.sub = [r \in RIdx(M) |-> IF r = o \/ ds[4] % (r + 1) = 0 THEN 1 ELSE 0]]
-      all == IF few THEN base ELSE base \o <<ovr, sub>>
+      \* the same question asked of a model with a history: fix_objective_as_constraint(model)
+      \* was called for the old objective, the objective was then edited in place
+      \* (objective_coefficient) and pfba is called without objective=.  The library replaces its
+      \* own fixed_objective constraint, so the answer is that of `ovr`.
+      stale == [ovr EXCEPT !.hist = "fixobj"]
+      all == IF few THEN base ELSE base \o <<ovr, sub, stale>>
   IN SelectSeq(all, LAMBDA cl : InScope_pfbaF(F, WithObjective(KO, cl.objc, M.dir), cl.num, cl.den))
 
 \* the calls of knock-out state number j (1 = no knock-out); A = ArgOpt(M) of the model before knock-out
